@@ -1304,6 +1304,21 @@ class ExtMixin(object):
                     return int(c)
                 base.items[:] = sorted(base.items, key=functools.cmp_to_key(cmp))
                 return NONE
+            if k is not None and set(kwargs) <= {"key", "reverse"} and not getattr(base, "tail", None):
+                # an ordinary key function on a list of known items: sorted by the keys when these are concrete
+                rev = kwargs.get("reverse")
+                if rev is None or isinstance(rev, Const):
+                    try:
+                        keys = [_concrete_key(self.call(k, [it], {}, node)) for it in base.items]
+                    except AnalysisError:
+                        keys = [None]
+                    if all(kk is not None for kk in keys):
+                        try:
+                            order = sorted(range(len(keys)), key=lambda j: keys[j], reverse=bool(rev.v) if rev is not None else False)
+                            base.items[:] = [base.items[j] for j in order]
+                            return NONE
+                        except TypeError:
+                            pass
             raise BecomeSignal(base, Opaque(("sorted_by_key", base.key())))
         s = self.x_sorted([base], {}, node, None)
         if isinstance(s, ListV):
@@ -1399,6 +1414,12 @@ class ExtMixin(object):
         return Num(ep.const(sum(1 for i in base.items if i.key() == args[0].key())))
 
     # SeqV (append to a sequence that already became symbolic)
+    def m_SeqV_sort(self, base, args, kwargs, node):
+        """xs.sort(...) of a symbolic sequence: xs becomes sorted(xs, ...)"""
+        if args:
+            self.err(node, "sort with positional arguments")
+        raise BecomeSignal(base, self.x_sorted([base], kwargs, node, None))
+
     def m_SeqV_append(self, base, args, kwargs, node):
         raise BecomeSignal(base, seq_concat(base, ListV([args[0]], "list")))
 
